@@ -152,10 +152,11 @@ def check(prop, tier, args):
             if str(f['key']).startswith('bounded: '):
                 # the same defect may be met by the symbolic sweep or, when that ran out of time, by the bounded stand-in: a listed
                 # finding of the same module, kind and (for C01) exception class is the same finding
-                tok = f['key'][9:].split()[0] if f['kind'] == 'non-ValidationError' else None
+                import re as _re
+                tok = _re.split(r'[\s@]', f['key'][9:])[0] if f['kind'] == 'non-ValidationError' else None
                 for k_ in rep.known:
                     if k_['module'] == m and k_.get('kind') == f['kind'] and k_.get('status', 'known') == 'known' and \
-                            (tok is None or k_['key'].replace('bounded: ', '').split()[0] == tok):
+                            (tok is None or _re.split(r'[\s@]', k_['key'].replace('bounded: ', ''))[0] == tok):
                         f = dict(f, key=k_['key'])
                         break
             oid = '%s/%s/%s/%s' % (prop, m, f['kind'], f['key'])
